@@ -277,15 +277,25 @@ def md_rec(md, mdchk, scales):
     return rec
 
 
-def random_case(rng, big=True):
-    """a random larger request: (kind, axes [(start, stop, num)] as Fractions, snake)"""
+def random_case(rng, big=True, fine=False):
+    """a random larger request: (kind, axes [(start, stop, num)] as Fractions, snake).
+    fine: steps that are tiny relative to the positions (an energy scan 9000 -> 9001 in 21 points): every point is
+    still a distinct documented point that must be visited"""
     kind = rng.choice(["inner", "inner", "outer", "outer", "outer", "x2x", "log"])
+    if fine and kind in ("x2x", "log"):
+        kind = rng.choice(["inner", "outer"])
 
     def val():
         return Fraction(rng.randint(-40, 40), rng.choice([1, 1, 2, 4]))
+
+    def span():
+        if not fine:
+            return val(), val()
+        a = rng.choice([5000, -8000, 20000]) + Fraction(rng.randint(-8, 8), 4)
+        return a, a + rng.choice([-1, 1]) * Fraction(rng.randint(1, 8), 8)
     if kind == "inner":
         n, k = rng.randint(1, 4), rng.randint(2, 12 if big else 9)
-        axes = [(val(), val(), k) for _ in range(n)]
+        axes = [span() + (k,) for _ in range(n)]
         snake = [False] * n
     elif kind == "outer":
         n = rng.randint(2, 3)
@@ -293,7 +303,7 @@ def random_case(rng, big=True):
             ks = [rng.randint(1, 7) for _ in range(n)]
             if 2 <= math.prod(ks) <= (70 if big else 36):
                 break
-        axes = [(val(), val(), k) for k in ks]
+        axes = [span() + (k,) for k in ks]
         snake = [False] + [rng.random() < 0.6 for _ in range(n - 1)]
     elif kind == "x2x":
         axes = [(Fraction(rng.randint(-20, 20)), Fraction(rng.randint(-20, 20)), rng.randint(2, 10))]
@@ -421,13 +431,13 @@ def run(ctx):
     rng = random.Random(ctx.seed)
     recs = []
     with cheap_plan_stacks():
-        for _ in range(16 if ctx.quick else 200):
-            kind, axes, snake = random_case(rng, not ctx.quick)
+        for i in range(16 if ctx.quick else 200):
+            kind, axes, snake = random_case(rng, not ctx.quick, fine=(i % 4 == 3))
             recs += record_case(rng, kind, axes, snake, lambda: Det("det"), lambda i, p: Mot(f"m{i + 1}", p), hand_runner)
     nhand = len(recs)
     # second device family / real engine: ophyd.sim devices on a RunEngine, stream from msg_hook + start document
-    for _ in range(2 if ctx.quick else 30):
-        kind, axes, snake = random_case(rng, not ctx.quick)
+    for i in range(2 if ctx.quick else 30):
+        kind, axes, snake = random_case(rng, not ctx.quick, fine=(i % 2 == 1))
         recs += record_case(rng, kind, axes, snake, ophyd_det, ophyd_motor, re_runner)
     ctx.note(f"{nhand} hand-driven and {len(recs) - nhand} RunEngine/ophyd.sim executions recorded for trace validation")
     v = validate_traces("ScansTrace", "ScansTrace.cfg", recs, SD, ctx.out, tag="C25t", timeout=2400)
